@@ -224,6 +224,11 @@ func (c *Ctx) ruleServeRouting(r2, r3 *RuleRep) {
 				}
 			}
 		}
+		if lk, ok := rv.(*ssa.Lookup); ok {
+			// the look-up written out in the arm: ch, ok := sig.table[key]; delete(sig.table, key)
+			c.ruleInlineLookup(r2, r3, m, arm, want, key, lk, ownSig)
+			continue
+		}
 		call, ok := rv.(*ssa.Call)
 		callee := (*ssa.Function)(nil)
 		if ok {
@@ -318,4 +323,118 @@ func (c *Ctx) ruleLookupConsumes(rr *RuleRep, f *ssa.Function) {
 		}
 		rr.Bad(key, l.Pos(), "%s can return a waiter without deleting its entry: a second acknowledgement with the same identifier would be routed to a request that already completed (or to a later request reusing the id)", FuncName(f))
 	}
+}
+
+// ruleInlineLookup: the waiter look-up of a serve arm made directly on a table of the signaller.
+func (c *Ctx) ruleInlineLookup(r2, r3 *RuleRep, m *serveModel, arm *serveArm, want, key string, lk *ssa.Lookup, ownSig func(ssa.Value) bool) {
+	tableOf := func(v ssa.Value) (*types.Var, ssa.Value) {
+		u, ok := v.(*ssa.UnOp)
+		if !ok || u.Op != token.MUL {
+			return nil, nil
+		}
+		fa, ok := u.X.(*ssa.FieldAddr)
+		if !ok || typeName(fa.X.Type()) != "signaller" {
+			return nil, nil
+		}
+		_, fld := fieldOf(fa)
+		return fld, fa.X
+	}
+	fld, base := tableOf(lk.X)
+	if fld == nil {
+		r2.Bad(key, lk.Pos(), "the channel the %s is handed to does not come from a waiter table of the signaller", want)
+		return
+	}
+	if !arm.Instr[lk] {
+		r2.Bad(key, lk.Pos(), "the waiter look-up is not performed per packet (outside the arm)")
+		return
+	}
+	if !ownSig(base) {
+		r2.Bad(key, lk.Pos(), "look-up is not made in this client's signaller")
+		return
+	}
+	kind, idv, ok := c.waiterEntry(lk.X, lk.Index)
+	if !ok {
+		r2.Bad(key, lk.Pos(), "the look-up key does not determine the acknowledgement kind and the packet identifier")
+		return
+	}
+	if kind != want {
+		r2.Bad(key, lk.Pos(), "the arm parsing %s looks its waiter up among the %s waiters", want, kind)
+		return
+	}
+	b, isID := isFieldLoad(c.Resolve(idv), want, "ID")
+	if !isID || c.Resolve(b) != arm.Pkt {
+		r2.Bad(key, lk.Pos(), "look-up key is not the identifier of the %s parsed in this arm", want)
+		return
+	}
+	// consumed: on every path from the look-up to the next packet (or out of serve) the entry is deleted under the same key
+	isDelete := func(in ssa.Instruction) bool {
+		cc := callCommon(in)
+		if cc == nil {
+			return false
+		}
+		if _, isDefer := in.(*ssa.Defer); isDefer {
+			return false
+		}
+		bi, ok := cc.Value.(*ssa.Builtin)
+		if !ok || bi.Name() != "delete" || len(cc.Args) != 2 {
+			return false
+		}
+		f2, b2 := tableOf(cc.Args[0])
+		if f2 != fld || c.Resolve(b2) != c.Resolve(base) {
+			return false
+		}
+		if cc.Args[1] == lk.Index {
+			return true
+		}
+		k2, id2, ok := c.waiterEntry(cc.Args[0], cc.Args[1])
+		return ok && k2 == kind && c.Resolve(id2) == c.Resolve(idv)
+	}
+	lkey := "serve/" + want + "/consume"
+	if w, leak := CanReach(m.F, lk, func(in ssa.Instruction) bool { return in == ssa.Instruction(m.Read) || realExit(in) }, PathQ{BlockInstr: isDelete}); leak {
+		r3.Bad(lkey, w.Pos(), "the waiter entry of a %s can stay in the table after it was looked up: a second acknowledgement with the same identifier would be routed to a request that already completed (or to a later request reusing the id)", want)
+	} else {
+		r3.OK(lkey, lk.Pos(), "entry is deleted after the look-up on every path")
+	}
+	r2.OK(key, lk.Pos(), "0x%02X -> %s.Parse -> look-up in table %s keyed by kind and identifier -> non-blocking send of the parsed packet", arm.K, want, fld.Name())
+}
+
+// readFunc: the function that reads one packet off the transport — the callee of the read call in serve (by role:
+// results (packetType, byte, []byte, error)), readPacket on the reference tree.
+func (c *Ctx) readFunc() *ssa.Function {
+	if m, _ := c.serveModel(); m != nil && m.Read != nil {
+		if g := c.StaticCalleeOf(&m.Read.Call); g != nil && g.Blocks != nil {
+			return g
+		}
+	}
+	return c.Func("readPacket")
+}
+
+// readerValues: the values through which the read function reaches the transport: its io.Reader parameter, or the loads
+// of an io.Reader field of its receiver.
+func (c *Ctx) readerValues(rp *ssa.Function) []ssa.Value {
+	var out []ssa.Value
+	isReader := func(t types.Type) bool {
+		s := types.TypeString(t, nil)
+		return s == "io.Reader" || s == "io.ReadWriteCloser" || s == "io.ReadWriter" || s == "io.ReadCloser"
+	}
+	for _, p := range rp.Params {
+		if isReader(p.Type()) {
+			out = append(out, p)
+		}
+	}
+	if len(out) > 0 || rp.Signature.Recv() == nil || len(rp.Params) == 0 {
+		return out
+	}
+	recv := rp.Params[0]
+	eachInstr(rp, func(in ssa.Instruction) {
+		ld, ok := in.(*ssa.UnOp)
+		if !ok || ld.Op != token.MUL || !isReader(ld.Type()) {
+			return
+		}
+		fa, ok := ld.X.(*ssa.FieldAddr)
+		if ok && c.Resolve(fa.X) == ssa.Value(recv) {
+			out = append(out, ld)
+		}
+	})
+	return out
 }
